@@ -110,6 +110,8 @@ type shaper struct {
 	termLeaves []string
 	// inputs that exercise a targeted shape of this grammar (run from the first rule, besides the drawn sentences)
 	hints []string
+	// avoidDupLabels: (host rule, leaf rule) pairs whose first reference stays bare / that were decided
+	keepBare, decided map[[2]string]bool
 }
 
 const plainRunes = "abcxyzABXZ019 _+-*(),;é"
@@ -648,6 +650,9 @@ func (s *shaper) avoidMergeInverted(g *ast.Grammar) {
 // and that is referenced more than once is only referenced from the body of
 // a labeled expression, which is a scope of its own.
 func (s *shaper) avoidDupLabels(g *ast.Grammar) {
+	if s.keepBare == nil {
+		s.keepBare, s.decided = map[[2]string]bool{}, map[[2]string]bool{}
+	}
 	for round := 0; round < 10; round++ {
 		refs := referenced(g)
 		exposes := map[string]bool{}
@@ -682,12 +687,27 @@ func (s *shaper) avoidDupLabels(g *ast.Grammar) {
 		}
 		wrapped := false
 		var prev ast.Expression
+		// ONE reference per (host rule, leaf rule) may stay bare when nothing refers to the host rule (its scopes are
+		// final: the host is never inlined anywhere), so that the same leaf rule is met labelled AND bare in one rule
+		// (round 16: inlining decided per reference, bookkeeping of uses per rule pair). Two copies of the leaf's labels
+		// in one scope - finding D5 - still cannot arise: the labels of a grammar are unique and at most one copy
+		// enters the host's own scope.
+		bareKept := map[[2]string]bool{}
 		for _, sl := range slots(g) {
 			e := sl.get()
 			if x, ok := e.(*ast.RuleRefExpr); ok && exposes[x.Name.Val] && refs[x.Name.Val] > 1 {
 				if l, ok := prev.(*ast.LabeledExpr); !ok || l.Expr != e {
-					sl.set(labeled(s.label(), e))
-					wrapped = true
+					host := g.Rules[sl.rule].Name.Val
+					key := [2]string{host, x.Name.Val}
+					if refs[host] == 0 && !bareKept[key] && s.keepBare[key] {
+						bareKept[key] = true
+					} else if refs[host] == 0 && !bareKept[key] && !s.decided[key] && s.r.Intn(2) == 0 {
+						s.decided[key], s.keepBare[key], bareKept[key] = true, true, true
+					} else {
+						s.decided[key] = true
+						sl.set(labeled(s.label(), e))
+						wrapped = true
+					}
 				}
 			}
 			prev = e
